@@ -59,6 +59,37 @@ func c50(c *engine.Ctx) {
 
 	// ---- fresh-write
 	nfw := 0
+	// methods that write through their receiver: calcHeightAndSize, balance, and (closure) every
+	// unexported Node method that calls one of them on its own receiver (e.g. a recalcAndBalance helper)
+	mut := map[*engine.Fn]bool{}
+	if calc != nil {
+		mut[calc] = true
+	}
+	if bal != nil {
+		mut[bal] = true
+	}
+	cow := map[*engine.Fn]bool{set: true, rem: true, rr: true, rl: true}
+	for changed := true; changed; {
+		changed = false
+		for _, f := range p.Funcs() {
+			if f.Obj == nil || mut[f] || cow[f] || f.Obj.Exported() || cjRecv(f) == nil {
+				continue
+			}
+			for _, s := range f.Calls() {
+				o, _ := s.Callee.(*types.Func)
+				if h := p.FnOf(o); h != nil && mut[h] {
+					if sel, ok := s.Call.Fun.(*ast.SelectorExpr); ok && engine.ObjOf(f.Info(), sel.X) == cjRecv(f) {
+						mut[f] = true
+						changed = true
+					}
+				}
+			}
+		}
+	}
+	var mutNames []string
+	for f := range mut {
+		mutNames = append(mutNames, f.Name)
+	}
 	for _, f := range []*engine.Fn{set, rem, rr, rl} {
 		if f == nil {
 			continue
@@ -68,7 +99,7 @@ func c50(c *engine.Ctx) {
 			ok, why := c50Fresh(f, st.base, st.node)
 			c.Check("fresh-write", f.Name+" store "+st.text, st.node.Pos(), ok, why)
 		}
-		for _, s := range f.CallsTo(N+"calcHeightAndSize", N+"balance") {
+		for _, s := range f.CallsTo(mutNames...) {
 			sel, ok := s.Call.Fun.(*ast.SelectorExpr)
 			if !ok {
 				continue
@@ -82,16 +113,26 @@ func c50(c *engine.Ctx) {
 			c.Check("fresh-write", f.Name+" call "+engine.ExprString(s.Call.Fun), s.Pos(), ok2, why)
 		}
 	}
-	// the helpers that write through their receiver are called only from the functions examined above
-	for _, h := range []string{"calcHeightAndSize", "balance"} {
-		callers := engine.CallerSet(p.RefsToFunc(N + h))
-		allowed := []string{N + "Set", N + "Remove", N + "rotateRight", N + "rotateLeft"}
+	// the methods that write through their receiver are reached only from the functions examined above
+	// (a private helper all of whose callers are such functions is not a new caller)
+	allowed := []string{N + "Set", N + "Remove", N + "rotateRight", N + "rotateLeft"}
+	for f := range mut {
+		refs := p.RefsToFunc(f.Name)
+		// calls on the own receiver inside another mutating method are covered by that method's callers
+		var ext []engine.Ref
+		for _, r := range refs {
+			if r.Fn != nil && mut[r.Fn.Root()] {
+				continue
+			}
+			ext = append(ext, r)
+		}
 		nfw++
-		c.Check("fresh-write", "callers of "+h, token.NoPos, len(engine.SetDiff(callers, allowed)) == 0, "callers: "+join(callers))
+		bad := p.UnexpectedCallers(ext, allowed)
+		c.Check("fresh-write", "callers of "+f.Name[strings.LastIndex(f.Name, ".")+1:], token.NoPos, len(bad) == 0, "unexpected callers: "+join(bad))
 	}
 	// and no other function of the package writes a Node field
 	for _, f := range p.Funcs() {
-		if f == set || f == rem || f == rr || f == rl || f == calc || f == bal {
+		if cow[f] || mut[f] {
 			continue
 		}
 		for _, st := range c50FieldStores(f, nodeT) {
@@ -99,14 +140,14 @@ func c50(c *engine.Ctx) {
 			c.Check("fresh-write", f.Name+" store "+st.text, st.node.Pos(), false, "Node field written outside the copy-on-write functions")
 		}
 	}
-	if bal != nil {
-		// balance writes only its receiver's child pointers with rotation results
-		for _, st := range c50FieldStores(bal, nodeT) {
+	for f := range mut {
+		// mutating methods write only through their (fresh, caller-checked) receiver
+		for _, st := range c50FieldStores(f, nodeT) {
 			nfw++
-			c.Check("fresh-write", bal.Name+" store "+st.text, st.node.Pos(), st.base == cjRecv(bal), "balance may only write through its (fresh, caller-checked) receiver")
+			c.Check("fresh-write", f.Name+" store "+st.text, st.node.Pos(), st.base == cjRecv(f), "a receiver-mutating method may only write through its receiver")
 		}
 	}
-	c.Floor("fresh-write", nfw, 20)
+	c.Floor("fresh-write", nfw, 14)
 
 	// ---- recalc-return
 	nrr := 0
@@ -143,7 +184,7 @@ func c50(c *engine.Ctx) {
 			if f == set {
 				ex := false
 				for _, gt := range g.Gates(rs) {
-					if id, ok := ast.Unparen(gt.Cond).(*ast.Ident); ok && id.Name == "updated" && gt.OnTrue {
+					if id, ok := ast.Unparen(gt.Cond).(*ast.Ident); ok && gt.OnTrue && c50IsUpdatedFlag(f, info.ObjectOf(id)) {
 						ex = true
 					}
 				}
@@ -155,12 +196,30 @@ func c50(c *engine.Ctx) {
 			base := pre[0].base
 			okCalc := true
 			why := ""
+			inReturn := func(cs *engine.Site) bool { return r.Pos() <= cs.Pos() && cs.Node.End() <= r.End() }
 			for _, st := range pre {
 				ss := f.SiteOf(st.node)
 				found := false
-				for _, cs := range f.CallsTo(N + "calcHeightAndSize") {
-					sel := cs.Call.Fun.(*ast.SelectorExpr)
-					if engine.ObjOf(info, sel.X) == st.base && g.ReachableAfter(ss, cs) && g.MustPass(rs, []*engine.Site{cs}) {
+				for _, d := range f.DeepCallsTo(1, N+"calcHeightAndSize") {
+					// the recalculation must precede balance(): one done inside balance/rotations (on copies) does not count
+					if !c50OnBase(f, d, st.base) || (len(d.Chain) > 0 && (d.Chain[0] == bal || d.Chain[0] == rr || d.Chain[0] == rl)) {
+						continue
+					}
+					if len(d.Chain) == 1 {
+						// inside the helper the recalculation must come before its balance call
+						h := d.Chain[0]
+						okOrder := false
+						for _, bs := range h.CallsTo(N + "balance") {
+							if h.Graph().Dominates(d.Inner, bs) {
+								okOrder = true
+							}
+						}
+						if !okOrder && len(h.CallsTo(N+"balance")) > 0 {
+							continue
+						}
+					}
+					cs := d.Outer
+					if g.ReachableAfter(ss, cs) && (inReturn(cs) || g.MustPass(rs, []*engine.Site{cs})) {
 						found = true
 					}
 				}
@@ -168,19 +227,22 @@ func c50(c *engine.Ctx) {
 					okCalc, why = false, "return after `"+st.text+"` does not pass "+st.base.Name()+".calcHeightAndSize()"
 				}
 			}
-			// balance: result is base.balance() or base reassigned from it
+			// balance: result is base.balance() (possibly through a helper that recalculates first) or base reassigned from it
 			okBal := false
 			if call, ok := ast.Unparen(r.Results[0]).(*ast.CallExpr); ok {
-				if s := f.SiteOf(call); s != nil && s.CalleeName() == N+"balance" {
-					okBal = engine.ObjOf(info, call.Fun.(*ast.SelectorExpr).X) == base
-				}
+				okBal = c50BalanceResult(f, call, base, 2)
 			} else if engine.ObjOf(info, r.Results[0]) == base {
-				for _, bs := range f.CallsTo(N + "balance") {
-					if as, ok := bs.Top.(*ast.AssignStmt); ok && len(as.Lhs) == 1 && engine.ObjOf(info, as.Lhs[0]) == base &&
-						engine.ObjOf(info, bs.Call.Fun.(*ast.SelectorExpr).X) == base && g.Dominates(bs, rs) {
-						okBal = true
+				engine.InspectBody(f, func(n ast.Node) {
+					as, ok := n.(*ast.AssignStmt)
+					if !ok || len(as.Lhs) != 1 || len(as.Rhs) != 1 || engine.ObjOf(info, as.Lhs[0]) != base {
+						return
 					}
-				}
+					if call, ok := ast.Unparen(as.Rhs[0]).(*ast.CallExpr); ok && c50BalanceResult(f, call, base, 2) {
+						if bs := f.SiteOf(as); bs != nil && g.Dominates(bs, rs) {
+							okBal = true
+						}
+					}
+				})
 			}
 			if okCalc && !okBal {
 				why = "the returned subtree root is not the result of balance()"
@@ -232,26 +294,23 @@ func c50(c *engine.Ctx) {
 		c.Check("mirror", "rotateLeft = mirror(rotateRight)", rl.Pos(), a == b, c50Diff(a, b))
 	}
 	if bal != nil {
-		var ifs []*ast.IfStmt
-		for _, st := range bal.Body.List {
-			if is, ok := st.(*ast.IfStmt); ok {
-				ifs = append(ifs, is)
-			}
-		}
 		nmi++
-		if len(ifs) != 2 {
-			c.Check("mirror", "balance: right-heavy case = mirror(left-heavy case)", bal.Pos(), false, "expected two top-level if statements")
+		cases := c50HeavyCases(bal)
+		if len(cases) != 2 {
+			c.Check("mirror", "balance: right-heavy case = mirror(left-heavy case)", bal.Pos(), false, "expected two heavy cases (two ifs, an if/else-if chain or a tagless switch)")
 		} else {
-			a := c50Norm(ifs[0], bal.Info(), true)
-			b := c50Norm(ifs[1], bal.Info(), false)
+			ca := c50Norm(cases[0].cond, bal.Info(), true)
+			cb := c50Norm(cases[1].cond, bal.Info(), false)
+			a := c50Norm(cases[0].body, bal.Info(), true)
+			b := c50Norm(cases[1].body, bal.Info(), false)
 			// the left-heavy case must be the canonical one
 			okCanon := false
-			if be, ok := ast.Unparen(ifs[0].Cond).(*ast.BinaryExpr); ok && be.Op == token.GTR {
+			if be, ok := ast.Unparen(cases[0].cond).(*ast.BinaryExpr); ok && be.Op == token.GTR {
 				if k, ok := cjConstOf(bal.Info(), be.Y); ok && k == 1 {
 					okCanon = true
 				}
 			}
-			c.Check("mirror", "balance: right-heavy case = mirror(left-heavy case)", bal.Pos(), a == b && okCanon, "left-heavy case must test `balance > 1`; "+c50Diff(a, b))
+			c.Check("mirror", "balance: right-heavy case = mirror(left-heavy case)", bal.Pos(), a == b && ca == cb && okCanon, "left-heavy case must test `balance > 1`; conditions: "+c50Diff(ca, cb)+"; bodies: "+c50Diff(a, b))
 		}
 	}
 	if tr := fn("TraverseInRange"); tr != nil {
@@ -316,13 +375,28 @@ func c50(c *engine.Ctx) {
 	if set != nil {
 		info := set.Info()
 		g := set.Graph()
-		key := cjParam(set, "key")
+		key := paramObj(set, 0)
 		recv := cjRecv(set)
-		engine.InspectBody(set, func(n ast.Node) {
+		isInner := func(fn *engine.Fn, n ast.Node) bool {
 			cl, ok := n.(*ast.CompositeLit)
-			if !ok || len(cl.Elts) < 4 {
-				return
+			if !ok || fn.Name == c50Pkg+".NewNode" {
+				return false
 			}
+			l, r := false, false
+			for _, e := range cl.Elts {
+				if kv, ok := e.(*ast.KeyValueExpr); ok {
+					if id, ok := kv.Key.(*ast.Ident); ok {
+						l = l || id.Name == "leftNode"
+						r = r || id.Name == "rightNode"
+					}
+				}
+			}
+			return l && r
+		}
+		// the literal may be built by a private constructor helper: each way of reaching it from Set is one instance
+		for _, d := range set.DeepFind(2, isInner) {
+			cl := d.Inner.Node.(*ast.CompositeLit)
+			linfo := d.Inner.Fn.Info()
 			fields := map[string]ast.Expr{}
 			for _, e := range cl.Elts {
 				if kv, ok := e.(*ast.KeyValueExpr); ok {
@@ -331,22 +405,40 @@ func c50(c *engine.Ctx) {
 					}
 				}
 			}
-			if fields["leftNode"] == nil || fields["rightNode"] == nil {
-				return
+			if _, constHeight := cjConstOf(linfo, fields["height"]); !constHeight {
+				continue // a copy constructor (height taken from another node), not a leaf split
 			}
 			nls++
-			s := set.SiteOf(cl)
-			less := false // literal on the `key < node.key` branch?
-			if s != nil {
-				for _, gt := range g.Gates(s) {
-					if b, ok := ast.Unparen(gt.Cond).(*ast.BinaryExpr); ok && b.Op == token.LSS && engine.ObjOf(info, b.X) == key && gt.OnTrue {
+			// resolve a field value to an expression of Set (helper parameters -> call arguments)
+			inSet := func(e ast.Expr) ast.Expr {
+				if e == nil {
+					return nil
+				}
+				x, in := cjChainArg(set, d, e)
+				if in != set {
+					return nil
+				}
+				return x
+			}
+			less := false // reached on the `key < node.key` branch?
+			for _, ft := range cjFactsAt(set, d.Outer) {
+				if x, op, y, ok := cjCmpFact(ft); ok && ft.Fn == set {
+					if op == token.GTR {
+						x, y, op = y, x, token.LSS
+					}
+					if se, isSel := ast.Unparen(y).(*ast.SelectorExpr); isSel && op == token.LSS && engine.ObjOf(info, x) == key && se.Sel.Name == "key" && engine.ObjOf(info, se.X) == recv {
 						less = true
 					}
 				}
 			}
-			h, okh := cjConstOf(info, fields["height"])
-			sz, oks := cjConstOf(info, fields["size"])
+			_ = g
+			h, okh := cjConstOf(linfo, fields["height"])
+			sz, oks := cjConstOf(linfo, fields["size"])
 			isNew := func(e ast.Expr) bool {
+				e = inSet(e)
+				if e == nil {
+					return false
+				}
 				call, ok := ast.Unparen(e).(*ast.CallExpr)
 				if !ok {
 					return false
@@ -354,13 +446,22 @@ func c50(c *engine.Ctx) {
 				st := set.SiteOf(call)
 				return st != nil && st.CalleeName() == c50Pkg+".NewNode" && len(call.Args) == 2 && engine.ObjOf(info, call.Args[0]) == key
 			}
-			isOld := func(e ast.Expr) bool { return engine.ObjOf(info, e) == recv }
-			keyIsNodeKey := false
-			if se, ok := ast.Unparen(fields["key"]).(*ast.SelectorExpr); ok && se.Sel.Name == "key" && engine.ObjOf(info, se.X) == recv {
-				keyIsNodeKey = true
+			isOld := func(e ast.Expr) bool { e = inSet(e); return e != nil && engine.ObjOf(info, e) == recv }
+			// the key: `<x>.key` where x resolves to the old leaf (⇒ its key) or to NewNode(key, …) (⇒ the new key); or the key parameter itself
+			keyIsNodeKey, keyIsParam := false, false
+			if kf := fields["key"]; kf != nil {
+				if se, ok := ast.Unparen(kf).(*ast.SelectorExpr); ok && se.Sel.Name == "key" {
+					if isOld(se.X) {
+						keyIsNodeKey = true
+					}
+					if isNew(se.X) {
+						keyIsParam = true
+					}
+				} else if e := inSet(kf); e != nil && engine.ObjOf(info, e) == key {
+					keyIsParam = true
+				}
 			}
-			keyIsParam := engine.ObjOf(info, fields["key"]) == key
-			ok = okh && oks && h == 1 && sz == 2
+			ok := okh && oks && h == 1 && sz == 2
 			if less {
 				ok = ok && isNew(fields["leftNode"]) && isOld(fields["rightNode"]) && keyIsNodeKey
 			} else {
@@ -370,8 +471,8 @@ func c50(c *engine.Ctx) {
 			if less {
 				side = "key < leaf"
 			}
-			c.Check("leaf-split", set.Name+" inner node for "+side, cl.Pos(), ok, "inner node must have height 1, size 2, children in key order and the right child's key")
-		})
+			c.Check("leaf-split", set.Name+" inner node for "+side, d.Outer.Pos(), ok, "inner node must have height 1, size 2, children in key order and the right child's key")
+		}
 	}
 	if nn := c.MustFunc(c50Pkg + ".NewNode"); nn != nil {
 		nls++
@@ -807,6 +908,12 @@ func c50Rewrite(n ast.Node, info *types.Info, mirror bool, name func(*ast.Ident)
 			return &ast.CallExpr{Fun: ex(x.Fun), Args: exs(x.Args)}
 		case *ast.UnaryExpr:
 			return &ast.UnaryExpr{Op: x.Op, X: ex(x.X)}
+		case *ast.StarExpr:
+			return &ast.StarExpr{X: ex(x.X)}
+		case *ast.IndexExpr:
+			return &ast.IndexExpr{X: ex(x.X), Index: ex(x.Index)}
+		case *ast.SliceExpr:
+			return &ast.SliceExpr{X: ex(x.X), Low: ex(x.Low), High: ex(x.High), Max: ex(x.Max), Slice3: x.Slice3}
 		case *ast.BasicLit:
 			return &ast.BasicLit{Kind: x.Kind, Value: x.Value}
 		case *ast.BinaryExpr:
@@ -862,4 +969,126 @@ func c50Diff(a, b string) string {
 		}
 	}
 	return fmt.Sprintf("different lengths: %d vs %d statements", len(la), len(lb))
+}
+
+type c50Case struct {
+	cond ast.Expr
+	body ast.Stmt
+}
+
+// c50HeavyCases extracts the (condition, body) pairs of balance(): top-level if
+// statements, an if / else-if chain, or the case clauses of a tagless switch.
+func c50HeavyCases(f *engine.Fn) []c50Case {
+	var out []c50Case
+	var fromIf func(is *ast.IfStmt)
+	fromIf = func(is *ast.IfStmt) {
+		next, chained := is.Else.(*ast.IfStmt)
+		if chained {
+			out = append(out, c50Case{is.Cond, is.Body})
+			fromIf(next)
+			return
+		}
+		if is.Else != nil {
+			if blk, ok := is.Else.(*ast.BlockStmt); ok && len(out) > 0 {
+				_ = blk // trailing else of a chain = the balanced case
+				out = append(out, c50Case{is.Cond, is.Body})
+				return
+			}
+		}
+		// plain if (its else, if any, belongs to the case body)
+		out = append(out, c50Case{is.Cond, &ast.IfStmt{Cond: ast.NewIdent("_"), Body: is.Body, Else: is.Else}})
+	}
+	for _, st := range f.Body.List {
+		switch x := st.(type) {
+		case *ast.IfStmt:
+			fromIf(x)
+		case *ast.SwitchStmt:
+			if x.Tag != nil {
+				continue
+			}
+			for _, cl := range x.Body.List {
+				cc := cl.(*ast.CaseClause)
+				if len(cc.List) == 1 {
+					out = append(out, c50Case{cc.List[0], &ast.BlockStmt{List: cc.Body}})
+				}
+			}
+		}
+	}
+	// normalise plain-if bodies that have no else to their block
+	for i, cs := range out {
+		if is, ok := cs.body.(*ast.IfStmt); ok && is.Else == nil {
+			out[i].body = is.Body
+		}
+	}
+	return out
+}
+
+// c50OnBase: the deep call is made on `base` in f, and inside helpers on the helper's own receiver.
+func c50OnBase(f *engine.Fn, d engine.DeepSite, base types.Object) bool {
+	sel, ok := d.Outer.Call.Fun.(*ast.SelectorExpr)
+	if !ok || engine.ObjOf(f.Info(), sel.X) != base {
+		return false
+	}
+	if d.Inner != d.Outer {
+		e, in := cjChainArg(f, d, d.Inner.Call.Fun.(*ast.SelectorExpr).X)
+		return in == f && engine.ObjOf(f.Info(), e) == base
+	}
+	return true
+}
+
+// c50BalanceResult: call is base.balance(), or base.h() for a Node method h all of whose returns are
+// (recursively) balance results on h's receiver, preceded there by nothing that could skip balance.
+func c50BalanceResult(f *engine.Fn, call *ast.CallExpr, base types.Object, depth int) bool {
+	s := f.SiteOf(call)
+	sel, ok := call.Fun.(*ast.SelectorExpr)
+	if s == nil || !ok || engine.ObjOf(f.Info(), sel.X) != base {
+		return false
+	}
+	if s.CalleeName() == c50Pkg+".(*Node).balance" {
+		return true
+	}
+	o, _ := s.Callee.(*types.Func)
+	h := f.Prog.FnOf(o)
+	if h == nil || depth <= 0 || cjRecv(h) == nil {
+		return false
+	}
+	rets := cjReturns(h)
+	if len(rets) == 0 {
+		return false
+	}
+	for _, r := range rets {
+		if len(r.Results) != 1 {
+			return false
+		}
+		c2, ok := ast.Unparen(r.Results[0]).(*ast.CallExpr)
+		if !ok || !c50BalanceResult(h, c2, cjRecv(h), depth-1) {
+			return false
+		}
+	}
+	return true
+}
+
+// c50IsUpdatedFlag: obj is the "an existing key was replaced" flag of Set: its second
+// (named) result, or a variable assigned from the second result of the recursive Set call.
+func c50IsUpdatedFlag(f *engine.Fn, obj types.Object) bool {
+	if obj == nil {
+		return false
+	}
+	k := 0
+	if f.Type.Results != nil {
+		for _, fld := range f.Type.Results.List {
+			for _, nm := range fld.Names {
+				if k == 1 && f.Info().ObjectOf(nm) == obj {
+					return true
+				}
+				k++
+			}
+		}
+	}
+	for _, s := range f.CallsTo(f.Name) {
+		if objs := cjAssignedFrom(f, s); len(objs) == 2 && objs[1] == obj {
+			return true
+		}
+	}
+	return false
 }
